@@ -74,6 +74,12 @@ M = [
                                        "            self.record_rejection(next_node, next_individual)\n            (self.simulation.nodes[-1] if next_individual.id_number % 3 else next_node).accept(next_individual, completed=False)\n"),
  ('H49', 'C09', 'ciw/node.py', "            individual.priority_class = self.simulation.network.priority_class_mapping[individual.customer_class]\n            self.simulation.statetracker.change_state_classchange(self, individual)\n",
                                "            individual.priority_class = self.simulation.network.priority_class_mapping[individual.previous_class]\n            self.simulation.statetracker.change_state_classchange(self, individual)\n"),
+ ('H50', 'C07', 'ciw/node.py', "            time_blocked=individual.exit_date - individual.service_end_date,\n", "            time_blocked=(individual.exit_date - individual.service_end_date) * (0.5 if individual.is_blocked else 1),\n"),
+ ('H51', 'C11', 'ciw/node.py', "            in_service = [s.cust for s in self.servers if not s.cust.is_blocked and not s.offduty]\n", "            in_service = [s.cust for s in self.servers if not s.offduty]\n"),
+ ('H52', 'C11', 'ciw/node.py', "            in_service = [s.cust for s in self.servers if not s.cust.is_blocked and not s.offduty]\n", "            in_service = [s.cust for s in self.servers if not s.cust.is_blocked]\n"),
+ ('H53', 'C11', 'ciw/node.py', "        if individual.service_time == \"resample\":\n            individual.service_time = self.get_service_time(individual)\n", "        if individual.service_time == \"resample\":\n            individual.service_time = individual.original_service_time\n"),
+ ('H55', 'C17', 'ciw/trackers/state_tracker.py', "        Changes the state of the system when a customer is released.\n        \"\"\"\n        self.state -= 1\n", "        Changes the state of the system when a customer is released.\n        \"\"\"\n        self.state -= 2 if blocked else 1\n"),
+ ('H56', 'C10', 'ciw/arrival_node.py', "        for _ in range(batch):\n", "        for _ in range(batch + (1 if self.number_of_individuals % 17 == 16 else 0)):\n"),
 ]
 
 
